@@ -140,6 +140,11 @@ def corpus(thorough=False):
     # (the data connection is never made: the worker is cancelled while it waits, before it could take the offset)
     for verb in ("RETR", "STOR", "APPE"):
         out.append((verb, 200, "never", "rest-pending"))
+    # a server told to wait for the data connection as long as it takes (wait_future_timeout=None): the worker waits
+    # until the ABOR; the session goes on with a new listener
+    for verb in ("RETR", "STOR", "LIST", "MLSD"):
+        out.append((verb, 200 if verb in ("RETR", "STOR") else 0, "never", "no-wait-limit"))
+        out.append((verb, 200 if verb in ("RETR", "STOR") else 0, "late", "no-wait-limit"))
     # a backend whose calls run in an executor and take their time: the ABOR finds the worker inside such a call
     for verb in ("RETR", "STOR"):
         out.append((verb, 200, "early", "slow-disk"))
@@ -161,6 +166,8 @@ def scenario_of(spec):
     spy_setup = None
     if env == "throttled":
         kw.update({"write_speed_limit": 10 * BS, "read_speed_limit": 10 * BS})
+    if env == "no-wait-limit":
+        kw["wait_future_timeout"] = None
     if env == "slow-backend":
         def spy_setup(spy, loop):
             spy.delay = 0.01
